@@ -17,6 +17,7 @@ From Coq.Strings Require Import Byte.
 From SP Require Import Bytes Params Crypto Errors BaseX Encodings Chunker Armor Streams Rand Sign Encrypt Signcrypt
      ChunkerProofs SignProofs EncryptProofs SigncryptProofs StreamProofs BxStream BxStreamProofs ArmorStream ArmorStreamProofs.
 From SP Require Import GoLang GoLang2 GoAst GoAstStreams GoAstProofs GoAstProofs2 GoAstProofs3 GoAstProofs4c GoAstProofs4d.
+From SP Require GoAstDearmor GoAstProofs7a GoAstProofs7b.
 From Coq Require String.
 Import String.StringSyntax.
 Import ListNotations.
@@ -311,6 +312,619 @@ Theorem C13_source_ReadUntilPunctuation (O : read_oracle) (F : nat) (z1 z2 : boo
   exists z1' z2' buf', lookup "p" (snd r) = Some (g_pr z1' z2' buf' (snd m)) /\ List.length buf' = 4096%nat.
 Proof. exact (go_punctuatedReader_ReadUntilPunctuation O F z1 z2 buf st lim). Qed.
 
+(* ---------------- SOURCE TIE of the streaming base-X DECODER: what is expressible, and what is not ---------------- *)
+(* Lemmas of proofs/GoAstProofs7b.v.  The terms f_basex_filteringReader_Read and f_basex_decoder_Read are generated on
+   every run from the Go syntax trees of /repo/encoding/basex/stream.go (gen/GoAstDearmor.v) and run by the evaluator of
+   model/GoLang2.v, against the state machine of model/BxStream.v (fr_filter / fr_read, bd_read) the C13_bx_stream_
+   theorems above are about.  The *decoder object is [g_dec en o], o : gdec = (d.err, d.out, d.buf = the whole array,
+   d.nbuf, d.scratchbuf, d.r), or [g_decU en U g_U ...] when the reader d.r is the encoding g_U u of a state u of an
+   ARBITRARY reader state machine (uread n u = what Read(p) with len(p) = n delivers, and the next state); the
+   filteringReader object is [g_fr en st]; an underlying io.Reader is g_source s read by src_read.  [run_func2_at F] is
+   run_func2 with the evaluator's fuel as a parameter; exec2 runs a statement list from an environment.
+   NOT EXPRESSIBLE in model/GoLang2.v, with machine-checked witnesses:
+   1. filteringReader.Read ranges over a byte slice, `for i, b := range p[:n]`; the evaluator gives SRange a meaning on
+      lists only, so a whole run is stuck ("range") as soon as the wrapped reader delivers at least one byte
+      (C13_source_filteringReader_Read_range_stuck).
+   2. decoder.Read reads into a window of a field, `n, d.err = d.r.Read(d.buf[d.nbuf:nn])`, and moves the leftover
+      input with `copy(d.buf[0:d.nbuf], d.buf[numBytesToDecode:...])`: a slice of a field is not a place an extern can
+      write back to (C13_source_decoder_Read_read_places, _copy_places), so the bytes the underlying reader delivers
+      can never appear in d.buf and the leftover input is never moved to the front.
+   3. the two `copy` calls of decoder.Read need different result lists from the SAME extern
+      (C13_source_copy_sites_conflict), and every run of the decoding part reaches both
+      (C13_source_rd_shift_stuck: the shift statement is stuck under the extern table the rest needs).
+   WHAT IS TIED ON THE TRANSLATED SOURCE.  Whole runs: filteringReader.Read when the first read delivers no byte;
+   decoder.Read on the two paths that do not reach the fill loop (nofill) and on every exit of the fill loop that does
+   not decode (exits, exits_model).  And SEGMENT BY SEGMENT, for every state of the object — so for whatever d.buf
+   holds — every other statement: f_body f_basex_decoder_Read = rd_pre ++ SFor rd_cond rd_loop_body :: rd_post,
+   rd_post = the eof / error dispatch ++ rd_post2, rd_post2 = rd_mid ++ rd_shift :: rd_fin (the two split theorems, by
+   reflexivity on the generated term): rd_pre_exec (nn), rd_loop (the fill loop turn by turn), rd_post_exec (the
+   dispatch), rd_mid_exec (the decoding part = gd_mid), rd_fin_exec (the final returns = gd_fin), and, without the
+   evaluator, gd_decode_model: gd_mid followed by gd_fin IS the decoding part bd_after of the model's bd_read on an
+   object whose d.buf[:d.nbuf] holds the characters the model has buffered.  For filteringReader.Read: fr_body_step
+   (one turn of the range body = one step of fr_filter), fr_after_exec (the statements after the range), and, without
+   the evaluator, gfr_range_filter: iterating fr_body_step over p[:n] IS fr_filter, with the in-place compaction.
+   THEREFORE TIED BY THE CALL-BY-CALL CAMPAIGN ONLY (the C13 campaign: the model's decoder compared call by call with
+   basex.NewDecoder under 16 fragmentations + exhaustive two-cut splits per input), not by a theorem on the source:
+   - that `range p[:n]` visits the bytes of p[:n] in order with their indices (the range HEADER of
+     filteringReader.Read; its body, what follows it, and the iteration as a function are tied), and that
+     CorruptInputError(r.nRead) is an error value (the evaluator makes the composite literal a struct);
+   - the two writes into d.buf: that after `d.r.Read(d.buf[d.nbuf:nn])` the bytes read are in d.buf[d.nbuf:], and that
+     the shift moves d.buf[num:num+d.nbuf] to the front — i.e. the hypothesis of gd_decode_model that d.buf[:d.nbuf]
+     holds the model's buffered characters (counts, errors, reader states and d.nbuf ARE tied);
+   - consequently the end-to-end run of decoder.Read on a path that decodes is assembled from the segment theorems
+     by hand across the shift statement, not produced by one run of the evaluator. *)
+Section C13_source_bx_decoder.
+Import GoAstDearmor GoAstProofs7b.
+Local Open Scope string_scope.
+Variable en : encoding.
+
+(* filteringReader.Read(p), whole run: for every state and p, the run is the model's when the first Read of the wrapped
+   reader delivers no byte — (0, err) returned as is, the wrapped reader advanced, nRead unchanged: fr_read's first
+   case — and OStuck "range" in EVERY other case.  The outcome and the whole final environment.  No hypothesis. *)
+Theorem C13_source_filteringReader_Read_range_stuck (st : fr_state) (p : bytes) :
+  run_func2 (ext_fr en) f_basex_filteringReader_Read [g_fr en st; VBytes p]
+  = match src_read (List.length p) (fr_src st) with
+    | (([], er), s') =>
+      (ORet [VInt 0; g_err_opt er],
+       [("r", g_fr en (mkFr s' (fr_nread st))); ("p", VBytes p); ("n", VInt 0); ("err", g_err_opt er)])
+    | ((_ :: _, _), _) => (OStuck "range", [])
+    end.
+Proof. exact (go_filteringReader_Read_range_stuck en st p). Qed.
+
+(* one turn of the body of `for i, b := range p[:n]` (fr_rbody) on the byte b at index i, with `offset` bytes kept so
+   far — the step of BxStream.fr_filter: a foreign byte returns (0, CorruptInputError(r.nRead)) [the struct the
+   evaluator makes of the composite literal]; otherwise r.nRead++, a skip byte `continue`s, an alphabet byte is stored
+   at p[offset] (when i != offset) and offset++.  envR = the environment (r, p, n, err, offset, i, b, then "typ" once
+   declared).  Hypotheses: the shape of the environment's tail (fr_tl); offset < len(p). *)
+Theorem C13_source_fr_body_step (f : nat) (st : fr_state) (p : bytes) (n : Z) (ev : gval) (off i : nat) (b : byte) (tl : env) :
+  fr_tl tl -> (off < List.length p)%nat ->
+  exec2 (ext_fr en) (S (S (S (S (S (S (S (S f)))))))) (envR en st p n ev off i b tl) fr_rbody
+  = match digit_of en b with
+    | Some _ => CNorm (envR en (mkFr (fr_src st) (fr_nread st + 1)%N) (if Nat.eqb i off then p else set_nth off b p) n ev (off + 1) i b
+                            [("typ", VInt 0)])
+    | None =>
+      if is_skip en b then CCont (envR en (mkFr (fr_src st) (fr_nread st + 1)%N) p n ev off i b [("typ", VInt 1)])
+      else CRet [VInt 0; VStruct [("0", VInt (Z.of_N (fr_nread st)))]] (envR en st p n ev off i b [("typ", VInt 2)])
+    end.
+Proof. exact (fr_body_step en f st p n ev off i b tl). Qed.
+
+(* the statements after the range (fr_after): `return offset, err` when something was kept or the reader failed, else
+   the next r.wrapped.Read(p) (src_read; r.wrapped and p written back) and round the outer loop again — fr_read's last
+   match.  No hypothesis. *)
+Theorem C13_source_fr_after_exec (f : nat) (st : fr_state) (p : bytes) (n : Z) (er : option err) (off : nat) (xi xb xt : gval) :
+  exec2 (ext_fr en) (S (S (S (S (S f))))) (envA en st p n (g_err_opt er) off xi xb xt) fr_after
+  = if (Nat.ltb 0 off || (match er with Some _ => true | None => false end))%bool
+    then CRet [VInt (Z.of_nat off); g_err_opt er] (envA en st p n (g_err_opt er) off xi xb xt)
+    else let '((data, er'), s') := src_read (List.length p) (fr_src st) in
+         CNorm (envA en (mkFr s' (fr_nread st)) (data ++ skipn (List.length data) p) (Z.of_nat (List.length data)) (g_err_opt er') off xi xb xt).
+Proof. exact (fr_after_exec en f st p n er off xi xb xt). Qed.
+
+(* (no evaluator) the iteration gfr_range of that body step over the bytes l = p[i:i+len l] IS the model's fr_filter:
+   the same verdict (kept / foreign byte at nRead), the same nRead, and the kept characters are p[:offset] afterwards —
+   the in-place compaction.  Hypotheses: offset <= i <= len(p); l is what p holds from index i on; p[:offset] is what
+   has been kept so far (acc, in reverse). *)
+Theorem C13_source_gfr_range_filter (l : bytes) (i off : nat) (p : bytes) (nread : N) (acc post : bytes) :
+  (off <= i)%nat -> (i <= List.length p)%nat -> skipn i p = l ++ post -> firstn off p = rev acc ->
+  match fr_filter en l nread acc with
+  | inl (kept, nread') =>
+    exists p', gfr_range en l i off p nread = inl (p', List.length kept, nread') /\
+               firstn (List.length kept) p' = kept /\ List.length p' = List.length p
+  | inr x => gfr_range en l i off p nread = inr x
+  end.
+Proof. exact (gfr_range_filter en l i off p nread acc post). Qed.
+
+(* decoder.Read, whole run, the two paths that do not reach the fill loop (gd_read_nofill), for every object and every
+   p: a sticky d.err is returned as (0, d.err) and nothing changes; otherwise non-empty leftover output d.out is copied:
+   (min(len p, len out), nil), p gets the bytes at its front, d.out loses them — the first two cases of
+   BxStream.bd_read.  (gd_read_nofill is None, and the statement True, when d.err = nil and d.out is empty.)
+   No hypothesis. *)
+Theorem C13_source_decoder_Read_nofill (o : gdec) (p : bytes) :
+  match gd_read_nofill o p with
+  | Some ((n, er), o', p') =>
+    exists tl,
+    run_func2 ext_copy f_basex_decoder_Read [g_dec en o; VBytes p]
+    = (ORet [VInt (Z.of_nat n); g_err_opt er], [("d", g_dec en o'); ("p", VBytes p')] ++ tl)
+  | None => True
+  end.
+Proof. exact (go_decoder_Read_nofill en o p). Qed.
+
+(* the decomposition of the body of decoder.Read the segment theorems refer to (by reflexivity on the generated term) *)
+Theorem C13_source_rd_body_split : f_body f_basex_decoder_Read = rd_pre ++ SFor rd_cond rd_loop_body :: rd_post.
+Proof. exact rd_body_split. Qed.
+Theorem C13_source_rd_post2_split : rd_post2 = rd_mid ++ rd_shift :: rd_fin.
+Proof. exact rd_post2_split. Qed.
+
+Section Reader.
+(* the underlying reader: an arbitrary state machine; as_U_g: decoding an encoded reader gives a reader with the same
+   behaviour *)
+Variable U : Type.
+Variable uread : nat -> U -> (bytes * option err) * U.
+Variable g_U : U -> gval.
+Variable as_U : gval -> option U.
+Hypothesis as_U_g : forall u, exists u', as_U (g_U u) = Some u' /\
+  forall n, fst (uread n u') = fst (uread n u) /\ g_U (snd (uread n u')) = g_U (snd (uread n u)).
+
+(* segment 1, the prefix (rd_pre) from a state with d.err = nil and d.out empty: it computes ibl, obl and nn = gd_nn
+   (len(p)/ibl*obl, at least obl, at most len(d.buf)) and goes on with the rest in the environment envL.
+   Hypotheses: as_U_g; 0 < base256BlockLen (Go would panic dividing by zero). *)
+Theorem C13_source_rd_pre_exec (f : nat) (buf : bytes) (nbuf : nat) (scr : bytes) (u : U) (p : bytes) (rest : list gstmt) :
+  (0 < N.to_nat (BaseX.ibl en))%nat ->
+  exec2 (ext_rd en U uread g_U as_U) (S (S (S (S (S (S (S (S (S f))))))))) [("d", g_decU en U g_U None [] buf nbuf scr u); ("p", VBytes p)] (rd_pre ++ rest)
+  = exec2 (ext_rd en U uread g_U as_U) (S (S f)) (envL en (g_decU en U g_U None [] buf nbuf scr u) p (gd_nn en (List.length buf) (List.length p)) []) rest.
+Proof. exact (rd_pre_exec en U uread g_U as_U as_U_g f buf nbuf scr u p rest). Qed.
+
+(* segment 2, the fill loop `for d.nbuf < obl && d.err == nil` with k turns of evaluator fuel: it makes exactly the reads
+   gd_fill describes — one d.r.Read(d.buf[d.nbuf:nn]) of nn - d.nbuf bytes per turn, d.nbuf += n, d.err = err, the
+   reader written back — and goes on with the rest; out of fuel (gd_fill = None) it is CStuck "loop fuel".  d.buf is
+   unchanged (NOT EXPRESSIBLE 2).  Hypotheses: as_U_g; baseXBlockLen <= nn <= len(d.buf); the shape of the
+   environment's tail (rd_tl). *)
+Theorem C13_source_rd_loop (f : nat) (out buf scr p : bytes) (nn : nat) (rest : list gstmt) :
+  (nn <= List.length buf)%nat -> (N.to_nat (BaseX.obl en) <= nn)%nat ->
+  forall (k nbuf : nat) (er : option err) (u : U) (tl : env), rd_tl tl ->
+  match gd_fill en U uread k nn nbuf er u with
+  | None => for_loop2 (ext_rd en U uread g_U as_U) (F5 f) rd_cond rd_loop_body rest k (envL en (g_decU en U g_U er out buf nbuf scr u) p nn tl) = CStuck "loop fuel"
+  | Some (nbuf', er', u') =>
+    exists tl', rd_tl tl' /\
+    for_loop2 (ext_rd en U uread g_U as_U) (F5 f) rd_cond rd_loop_body rest k (envL en (g_decU en U g_U er out buf nbuf scr u) p nn tl)
+    = exec2 (ext_rd en U uread g_U as_U) (F5 f) (envL en (g_decU en U g_U er' out buf nbuf' scr u') p nn tl') rest
+  end.
+Proof. exact (rd_loop en U uread g_U as_U as_U_g f out buf scr p nn rest). Qed.
+
+(* segment 3, the eof / error dispatch after the loop (the first two statements of rd_post): an error other than io.EOF,
+   or io.EOF with nothing buffered, is returned at once as (0, err); io.EOF with characters buffered clears d.err,
+   sets eof = true and goes on to the decoding part rd_post2; no error: eof = false and on to rd_post2.
+   Hypotheses: as_U_g; the shape of the environment's tail. *)
+Theorem C13_source_rd_post_exec (f : nat) (er : option err) (out buf : bytes) (nbuf : nat) (scr : bytes) (u : U) (p : bytes) (nn : nat) (tl : env) :
+  rd_tl tl ->
+  exec2 (ext_rd en U uread g_U as_U) (S (S (S (S (S (S f)))))) (envL en (g_decU en U g_U er out buf nbuf scr u) p nn tl) rd_post
+  = match er with
+    | Some x =>
+      if (is_eof7 x && negb (Nat.eqb nbuf 0))%bool
+      then exec2 (ext_rd en U uread g_U as_U) (S (S (S (S f)))) (envL en (g_decU en U g_U None out buf nbuf scr u) p nn (tl ++ [("eof", VBool true)])) rd_post2
+      else CRet [VInt 0; g_err x] (envL en (g_decU en U g_U er out buf nbuf scr u) p nn (tl ++ [("eof", VBool false)]))
+    | None => exec2 (ext_rd en U uread g_U as_U) (S (S (S (S f)))) (envL en (g_decU en U g_U None out buf nbuf scr u) p nn (tl ++ [("eof", VBool false)])) rd_post2
+    end.
+Proof. exact (rd_post_exec en U uread g_U as_U as_U_g f er out buf nbuf scr u p nn tl). Qed.
+
+(* whole run, decoder.Read from a state with d.err = nil and d.out empty: the three segments above put together — when
+   the loop ends with an error other than io.EOF, or with io.EOF and d.nbuf = 0, Read returns (0, that error) at once,
+   leaving d.err = the error, d.nbuf and d.r as the loop left them, p untouched.  The other endings (True here) go on to
+   the decoding part, which one run of the evaluator cannot cross (the shift statement).  Hypotheses: as_U_g;
+   0 < base256BlockLen; baseXBlockLen <= len(d.buf) (newDecoder: len(d.buf) = 8192*ibl); 13 <= F.  When the loop needs
+   more than F - 7 turns the evaluator is out of fuel (stated: OStuck "loop fuel"; a bound on the evaluator). *)
+Theorem C13_source_decoder_Read_exits (F : nat) (buf : bytes) (nbuf : nat) (scr : bytes) (u : U) (p : bytes) :
+  (0 < N.to_nat (BaseX.ibl en))%nat -> (N.to_nat (BaseX.obl en) <= List.length buf)%nat -> (13 <= F)%nat ->
+  let r := run_func2_at (S F) (ext_rd en U uread g_U as_U) f_basex_decoder_Read [g_decU en U g_U None [] buf nbuf scr u; VBytes p] in
+  match gd_fill en U uread (F - 7) (gd_nn en (List.length buf) (List.length p)) nbuf None u with
+  | None => r = (OStuck "loop fuel", [])
+  | Some (nbuf', Some x, u') =>
+    if (is_eof7 x && negb (Nat.eqb nbuf' 0))%bool then True
+    else fst r = ORet [VInt 0; g_err x] /\
+         lookup "d" (snd r) = Some (g_decU en U g_U (Some x) [] buf nbuf' scr u') /\
+         lookup "p" (snd r) = Some (VBytes p)
+  | Some (_, None, _) => True
+  end.
+Proof. exact (go_decoder_Read_exits en U uread g_U as_U as_U_g F buf nbuf scr u p). Qed.
+
+(* segment 4, the decoding part (rd_mid, statements 10..15) = gd_mid: numBytesToDecode (all of d.nbuf at eof, else whole
+   blocks), DecodedLen, then Decode into d.scratchbuf + copy into p + surplus kept in d.out when the output exceeds
+   len(p), or Decode straight into p; d.err = the decode error; d.nbuf -= numBytesToDecode; the bytes delivered are
+   observed in p (p is a variable: Decode / copy write it back).  CStuck "call" exactly when Decode's destination is
+   too short (gd_mid = None: the Go code would panic).  Xm = the extern table ext_rd.  Hypotheses: 0 < baseXBlockLen;
+   d.nbuf <= len(d.buf); "n" is declared (one turn of the loop has run: its value x is arbitrary). *)
+Theorem C13_source_rd_mid_exec (f : nat) (eof : bool) (out buf : bytes) (nbuf : nat) (scr : bytes) (R : gval) (p : bytes) (nn : nat)
+        (x : gval) (rest : list gstmt) :
+  (0 < N.to_nat (BaseX.obl en))%nat -> (nbuf <= List.length buf)%nat ->
+  let o := mkGd None out buf nbuf scr R in
+  let num := if eof then nbuf else (nbuf / N.to_nat (BaseX.obl en) * N.to_nat (BaseX.obl en))%nat in
+  let nout := decoded_len en (N.of_nat num) in
+  exec2 (Xm en U uread g_U as_U) (S (S (S (S (S (S (S (S (S (S (S (S f))))))))))))
+        [("d", g_dec en o); ("p", VBytes p); ("ibl", VInt (Z.of_nat (N.to_nat (BaseX.ibl en)))); ("obl", VInt (Z.of_nat (N.to_nat (BaseX.obl en))));
+         ("nn", VInt (Z.of_nat nn)); ("n", x); ("eof", VBool eof)] (rd_mid ++ rest)
+  = match gd_mid en eof o p with
+    | Some (ret, o', p') =>
+      exec2 (Xm en U uread g_U as_U) (S (S (S (S (S (S f))))))
+            (envM en (g_dec en o') p' nn
+                  (if Nat.ltb (List.length p) (N.to_nat nout) then VInt (Z.of_nat (List.length (fst (decode en (firstn num buf))))) else x)
+                  eof num nout ret) rest
+    | None => CStuck "call"
+    end.
+Proof. exact (rd_mid_exec en U uread g_U as_U f eof out buf nbuf scr R p nn x rest). Qed.
+
+(* WITNESS of NOT EXPRESSIBLE 2/3 in place: the buffer shift copy(d.buf[0:d.nbuf], d.buf[num:num+d.nbuf]) between
+   segments 4 and 5 is stuck ("call arity") under this extern table (copy returns the count and the destination, as
+   the assignment `ret = copy(p, d.out)` of segment 4 needs).  Hypothesis: num + d.nbuf <= len(d.buf). *)
+Theorem C13_source_rd_shift_stuck (f : nat) (o' : gdec) (p' : bytes) (nn : nat) (nv : gval) (eof : bool) (num : nat) (nout : N)
+        (ret : nat) (rest : list gstmt) :
+  (num + gd_nbuf o' <= List.length (gd_buf o'))%nat ->
+  exec2 (Xm en U uread g_U as_U) (S (S f)) (envM en (g_dec en o') p' nn nv eof num nout ret) (rd_shift :: rest) = CStuck "call arity".
+Proof. exact (rd_shift_stuck en U uread g_U as_U f o' p' nn nv eof num nout ret rest). Qed.
+
+(* segment 5, the final returns (rd_fin) = gd_fin: (0, io.EOF) when nothing was delivered without error into a non-empty
+   p, else (ret, d.err); the environment unchanged.  No hypothesis. *)
+Theorem C13_source_rd_fin_exec (f : nat) (o' : gdec) (p' : bytes) (nn : nat) (nv : gval) (eof : bool) (num : nat) (nout : N) (ret : nat) :
+  exec2 (Xm en U uread g_U as_U) (S (S (S (S f)))) (envM en (g_dec en o') p' nn nv eof num nout ret) rd_fin
+  = CRet [VInt (Z.of_nat (fst (gd_fin ret (gd_err o') (List.length p')))); g_err_opt (snd (gd_fin ret (gd_err o') (List.length p')))]
+         (envM en (g_dec en o') p' nn nv eof num nout ret).
+Proof. exact (rd_fin_exec en U uread g_U as_U f o' p' nn nv eof num nout ret). Qed.
+End Reader.
+
+(* whole run over the reader of model/BxStream.v (the raw source for a strict encoding, source + filteringReader state
+   otherwise: g_rd; read by under_read) against bd_read: on the paths that leave Read right after the fill loop, bd_read
+   returns BdErr [] x with state (Some x, [], buffered characters, reader) and the Go code returns (0, x) leaving
+   d.err = x, d.nbuf = the number of buffered characters and d.r = the model's reader.  The object is the one newDecoder
+   builds, d.buf[:d.nbuf] standing for the model's bd_buf (only its LENGTH matters on these paths).  Hypotheses:
+   bd_err st = None, bd_out st = []; 0 < base256BlockLen; len(d.buf) = input_cap en; baseXBlockLen <= input_cap en;
+   13 <= F. *)
+Theorem C13_source_decoder_Read_exits_model (F : nat) (st : bd_state) (buf scr p : bytes) :
+  bd_err st = None -> bd_out st = [] ->
+  (0 < N.to_nat (BaseX.ibl en))%nat -> List.length buf = input_cap en -> (N.to_nat (BaseX.obl en) <= input_cap en)%nat ->
+  (13 <= F)%nat ->
+  let r := run_func2_at (S F) (ext_bd en) f_basex_decoder_Read
+             [g_decU en fr_state (g_rd en) None [] buf (List.length (bd_buf st)) scr (bd_r st); VBytes p] in
+  match gd_fill en fr_state (under_read en) (F - 7) (gd_nn en (List.length buf) (List.length p)) (List.length (bd_buf st)) None (bd_r st) with
+  | None => r = (OStuck "loop fuel", [])
+  | Some (n', Some x, _) =>
+    if (is_eof7 x && negb (Nat.eqb n' 0))%bool then True
+    else
+    let '(res, st') := bd_read en (F - 7) (List.length p) st in
+         res = BdErr [] x /\ bd_err st' = Some x /\ bd_out st' = [] /\
+         fst r = ORet [VInt 0; g_err x] /\
+         lookup "d" (snd r) = Some (g_decU en fr_state (g_rd en) (bd_err st') [] buf (List.length (bd_buf st')) scr (bd_r st')) /\
+         lookup "p" (snd r) = Some (VBytes p)
+  | Some (_, None, _) => True
+  end.
+Proof. exact (go_decoder_Read_exits_model en F st buf scr p). Qed.
+
+(* (no evaluator) THE DECODING PART AGAINST THE MODEL: gd_mid followed by gd_fin IS BxStreamProofs.bd_after, the decoding
+   part of bd_read, on an object whose d.buf[:d.nbuf] holds the characters the model has buffered: the same result
+   (data or data + error, res_of), d.err, d.out, and the leftover input = d.buf[num:num+d.nbuf], i.e. d.buf[:d.nbuf]
+   once the shift is performed.  Hypotheses: d.nbuf <= len(d.buf); len(p) > 0 (the model is defined for non-empty p;
+   for an empty p the Go code returns (0, nil), gd_fin says so). *)
+Theorem C13_source_gd_decode_model (eof : bool) (buf : bytes) (nbuf : nat) (scr : bytes) (R : gval) (r' : fr_state) (p : bytes) :
+  (nbuf <= List.length buf)%nat -> (0 < List.length p)%nat ->
+  let o := mkGd None [] buf nbuf scr R in
+  let num := if eof then nbuf else (nbuf / N.to_nat (BaseX.obl en) * N.to_nat (BaseX.obl en))%nat in
+  match gd_mid en eof o p with
+  | Some (ret, o', p') =>
+    BxStreamProofs.bd_after en (List.length p) (firstn nbuf buf) r' eof
+    = (res_of (gd_fin ret (gd_err o') (List.length p')) p',
+       mkBd (gd_err o') (gd_out o') (firstn (gd_nbuf o') (skipn num buf)) r')
+  | None => True
+  end.
+Proof. exact (gd_decode_model en eof buf nbuf scr R r' p). Qed.
+
+(* WITNESS of NOT EXPRESSIBLE 2, the read: the second statement of the fill loop is the call "Reader.Read" on d.r and
+   the slice expression d.buf[d.nbuf:nn], and the ONLY place among its arguments an extern can write back to is d.r. *)
+Theorem C13_source_decoder_Read_read_places :
+  match nth 1 rd_loop_body SBreak with
+  | SAssignL _ [ECall fn args] => (fn, args, mutable_places args)
+  | _ => ("", [], [])
+  end
+  = ("Reader.Read",
+     [ESel (EVar "d") "r"; ESlice (ESel (EVar "d") "buf") (Some (ESel (EVar "d") "nbuf")) (Some (EVar "nn"))],
+     [LField (LVar "d") "r"]).
+Proof. exact decoder_Read_read_places. Qed.
+
+(* WITNESS of NOT EXPRESSIBLE 2, the move: statement 16 of decoder.Read is the call "copy" and NONE of its arguments is a
+   place: its effect on d.buf cannot be expressed. *)
+Theorem C13_source_decoder_Read_copy_places :
+  match nth 16 (f_body f_basex_decoder_Read) SBreak with
+  | SExpr (ECall fn args) => (fn, mutable_places args)
+  | _ => ("", [LVar ""])
+  end = ("copy", []).
+Proof. exact decoder_Read_copy_places. Qed.
+
+(* WITNESS of NOT EXPRESSIBLE 3: for every extern table X, a result list rs that a call STATEMENT without places accepts
+   (write_back2 X [] rs e succeeds: rs must be empty) is one the assignment `ret = copy(..)` rejects (it needs the
+   count as first result): no result list of the extern "copy" serves both sites. *)
+Theorem C13_source_copy_sites_conflict (X : externs) (rs : list gval) (e : env) :
+  write_back2 X [] rs e <> None -> lv_set_all X [LVar "ret"] (firstn 1 rs) e = None.
+Proof. exact (copy_sites_conflict X rs e). Qed.
+End C13_source_bx_decoder.
+
+(* ---------------- SOURCE TIE of the armored READ stack's framing layer: framedDecoderStream ---------------- *)
+(* Lemmas of proofs/GoAstProofs7a.v.  The terms f_saltpack_framedDecoderStream_{isValidByteSequence, toASCII, loadHeader,
+   Read, GetHeader, GetFooter, GetBrand, consumeUntilEOF} are generated on every run from the Go syntax trees of
+   /repo/armor.go (gen/GoAstDearmor.v) and run by the evaluator of model/GoLang2.v on ENCODED receiver objects.
+   WHAT IS TIED: framedDecoderStream.Read (with loadHeader and the getters) computes exactly the state machine gfds_read /
+   gfds_load_header_m / gfds_get_ of GoAstProofs7a.v — framedDecoderStream for ARBITRARY header / frame checkers hc, fc
+   (None = nil) — every return value, the error, the object left in the receiver and the bytes left in p; and that
+   machine, at the checkers the library ships (parseFrame / CheckArmor62 at a message type: hc_opt / fc_opt (Some typ))
+   and at "no checkers" (None), IS the model's fds_read / fds_load_header of model/ArmorStream.v — the middle layer of
+   the composed stack the C13_armor_stream_ theorems above are about.  All this UNDER THE INVARIANT pr_clean (the
+   underlying io.Reader never returns saltpack's internal value ErrPunctuated itself; Read would take it for the end
+   of the body), which holds of the initial object over a source that never delivers that value and which Read and
+   loadHeader PRESERVE (C13_source_gfds_read_clean).
+   The object is [g_fds hc fc encv flim r st]: st : fds_state the model's record (reader state, phase, header, footer,
+   brand); r : fds_rep the representation choices the model does not fix (an empty header / footer slice is nil or
+   empty, the punctuatedReader's internal buffer); frameLim an ARBITRARY value flim (newArmorDecoderStream stores
+   lim0 = 8192); params.Encoding an ARBITRARY value encv.  Externs (ext_fds): punctuatedReader.ReadUntilPunctuation
+   = pr_read_until fuel (tie: C13_source_ReadUntilPunctuation), punctuatedReader.Read = pr_read (tie:
+   C13_source_punctuatedReader_Read) — C13_source_ext_Read_sound / ext_RUP_sound show these externs return and write
+   back exactly what the translated methods do; what those ties leave open (nil-or-empty slices in the new reader
+   object, the internal buffer, the bytes of p beyond the count) is supplied by oracles Orup, Ord, and the
+   representation after a nested method call by oracles Olh, Oce: every statement holds for EVERY oracle and every
+   model fuel.  "Some representation r'" always comes with keeps_ok r r': if the reader's buffer has its real length
+   4096 in r and the oracles keep it, it has in r' — so the statements compose with themselves and with the tie of
+   ReadUntilPunctuation.
+   WHAT STAYS CAMPAIGN-ONLY (the C13 / C11 campaigns compare the composed stack call by call with
+   NewArmor62DecoderStream): (1) the BODY of consumeUntilEOF — `n, err := s.r.Read(buf[:])` fills a LOCAL array through a
+   slice expression, which is not a place of the evaluator: it is stuck for every state
+   (C13_source_consumeUntilEOF_not_expressible); inside Read the call s.consumeUntilEOF() has the model's meaning
+   fds_consume.  (2) isValidByteSequence on a BYTE-STRING argument, which is what every caller passes: the evaluator's
+   `range` iterates lists only, so the loop is tied on the list of the byte values and stuck on VBytes
+   (C13_source_isValidByteSequence_bytes_stuck); inside toASCII / consumeUntilEOF the call has the meaning
+   forallb valid_armor_byte.  Also toASCII of a NIL slice (string(nil) is not convertible in the evaluator).
+   FINDING recorded in GoAstProofs7a.v: after a header the checker refuses, Go has overwritten s.frameBrand with the
+   checker's first result while the model keeps the old brand — hence the relation fds_rel (equal but for frameBrand
+   while the phase is Header) instead of equality; not observable through the API. *)
+Section C13_source_framed_decoder.
+Import GoAstDearmor GoAstProofs7a.
+Local Open Scope string_scope.
+
+Section Go_side.
+Variable hc : option checker1.
+Variable fc : option checker2.
+Variable encv : gval.
+Variable fuel : nat.
+Variable flim : Z.
+Variable Orup : gval -> (bool * bool) * bytes.
+Variable Ord : read_oracle.
+Variable Olh : gval -> fds_rep.
+Variable Oce : gval -> fds_rep.
+(* the extern table and the receiver object of this section, written out once *)
+Local Notation EXT := (ext_fds hc fc encv fuel flim Orup Ord Olh Oce).
+Local Notation OBJ := (g_fds hc fc encv flim).
+
+(* s.isValidByteSequence(p), p given as the LIST OF ITS BYTE VALUES (g_blist p): returns forallb valid_armor_byte p;
+   receiver unchanged.  No hypothesis. *)
+Theorem C13_source_isValidByteSequence (r : fds_rep) (st : fds_state) (p : bytes) :
+  let R := run_func2 EXT f_saltpack_framedDecoderStream_isValidByteSequence [OBJ r st; g_blist p] in
+  fst R = ORet [VBool (forallb valid_armor_byte p)] /\ lookup "s" (snd R) = Some (OBJ r st).
+Proof. exact (go_isValidByteSequence hc fc encv fuel flim Orup Ord Olh Oce r st p). Qed.
+
+(* a nil slice: true.  No hypothesis. *)
+Theorem C13_source_isValidByteSequence_nil (r : fds_rep) (st : fds_state) :
+  fst (run_func2 EXT f_saltpack_framedDecoderStream_isValidByteSequence [OBJ r st; VNil]) = ORet [VBool true].
+Proof. exact (go_isValidByteSequence_nil hc fc encv fuel flim Orup Ord Olh Oce r st). Qed.
+
+(* with the slice given as a byte string (the representation every caller passes) the evaluator is stuck at the range
+   loop, for every state and every p: this use is campaign-only.  No hypothesis. *)
+Theorem C13_source_isValidByteSequence_bytes_stuck (r : fds_rep) (st : fds_state) (p : bytes) :
+  fst (run_func2 EXT f_saltpack_framedDecoderStream_isValidByteSequence [OBJ r st; VBytes p]) = OStuck "range".
+Proof. exact (go_isValidByteSequence_bytes_stuck hc fc encv fuel flim Orup Ord Olh Oce r st p). Qed.
+
+(* s.toASCII(buf) on a byte string returns (trim_space buf, nil) if every byte is a valid armor byte, ("", ErrBadFrame)
+   otherwise — asc_val / res_err of the model's to_ascii buf; receiver unchanged.  No hypothesis. *)
+Theorem C13_source_toASCII (r : fds_rep) (st : fds_state) (b : bytes) :
+  let R := run_func2 EXT f_saltpack_framedDecoderStream_toASCII [OBJ r st; VBytes b] in
+  fst R = ORet [asc_val (to_ascii b); res_err (to_ascii b)] /\ lookup "s" (snd R) = Some (OBJ r st).
+Proof. exact (go_toASCII hc fc encv fuel flim Orup Ord Olh Oce r st b). Qed.
+
+(* s.loadHeader() returns the error of gfds_load_header_m st and leaves, in some representation r', its state: nothing
+   happens unless the phase is Header; else the sentence read by ReadUntilPunctuation(s.frameLim) is stored in s.header
+   (nil on error), then, with a header checker, toASCII and the checker: s.frameBrand := the checker's first result
+   (ALSO when it returns an error), state := Body on success.  No hypothesis. *)
+Theorem C13_source_loadHeader (r : fds_rep) (st : fds_state) :
+  let R := run_func2 EXT f_saltpack_framedDecoderStream_loadHeader [OBJ r st] in
+  fst R = ORet [g_err_opt (fst (gfds_load_header_m hc fuel flim st))] /\
+  exists r', lookup "s" (snd R) = Some (OBJ r' (snd (gfds_load_header_m hc fuel flim st))) /\ keeps_ok Orup Olh Oce r r'.
+Proof. exact (go_loadHeader hc fc encv fuel flim Orup Ord Olh Oce r st). Qed.
+
+(* s.Read(p) returns (len d, e) and leaves the state st' in some representation r', where ((d, e), st') =
+   gfds_read (len p) st (header stage, body stage, footer stage, end-of-stream stage); and p afterwards is buf2 st1 p
+   (st1 = the state after the header stage): p itself if the body stage did not run, else the slice as written back by
+   punctuatedReader.Read; in both cases d is at its front.  When a stage after the body fails the count is 0 and d = []
+   although the body bytes are in p (as in Go).  Hypothesis: the invariant pr_clean (fds_pr st). *)
+Theorem C13_source_framedDecoderStream_Read (r : fds_rep) (st : fds_state) (p : bytes) :
+  pr_clean (fds_pr st) ->
+  let R := run_func2 EXT f_saltpack_framedDecoderStream_Read [OBJ r st; VBytes p] in
+  let m := gfds_read hc fc fuel flim (List.length p) st in
+  fst R = ORet [VInt (Z.of_nat (List.length (fst (fst m)))); g_err_opt (snd (fst m))] /\
+  (exists r', lookup "s" (snd R) = Some (OBJ r' (snd m)) /\ keeps_ok Orup Olh Oce r r') /\
+  (let p' := buf2 Ord (snd (gfds_load_header_m hc fuel flim st)) p in
+   lookup "p" (snd R) = Some (VBytes p') /\ firstn (List.length (fst (fst m))) p' = fst (fst m)).
+Proof. exact (go_framedDecoderStream_Read hc fc encv fuel flim Orup Ord Olh Oce r st p). Qed.
+
+(* the invariant is kept by Read (and by loadHeader: gfds_load_header_m_clean; it holds of the initial object over a
+   source that never delivers ErrPunctuated: fds_init_clean).  Hypothesis: it holds before. *)
+Theorem C13_source_gfds_read_clean (n : nat) (st : fds_state) :
+  pr_clean (fds_pr st) -> pr_clean (fds_pr (snd (gfds_read hc fc fuel flim n st))).
+Proof. exact (gfds_read_clean hc fc fuel flim n st). Qed.
+
+(* s.GetFooter(): ("", fmt.Errorf(..)) before the footer phase, else toASCII(s.footer) (gfds_get_footer); receiver
+   unchanged.  No hypothesis. *)
+Theorem C13_source_GetFooter (r : fds_rep) (st : fds_state) :
+  let R := run_func2 EXT f_saltpack_framedDecoderStream_GetFooter [OBJ r st] in
+  fst R = ORet (gfds_get_footer st) /\ lookup "s" (snd R) = Some (OBJ r st).
+Proof. exact (go_GetFooter hc fc encv fuel flim Orup Ord Olh Oce r st). Qed.
+
+(* s.GetHeader(): loads the header if the phase is Header (error: ("", err)), then toASCII(s.header) (gfds_get_header);
+   the receiver is some representation of the state after loading.  No hypothesis. *)
+Theorem C13_source_GetHeader (r : fds_rep) (st : fds_state) :
+  let R := run_func2 EXT f_saltpack_framedDecoderStream_GetHeader [OBJ r st] in
+  fst R = ORet (fst (gfds_get_header hc fuel flim st)) /\
+  exists r', lookup "s" (snd R) = Some (OBJ r' (snd (gfds_get_header hc fuel flim st))) /\ keeps_ok Orup Olh Oce r r'.
+Proof. exact (go_GetHeader hc fc encv fuel flim Orup Ord Olh Oce r st). Qed.
+
+(* s.GetBrand(): loads the header if the phase is Header (error: ("", err)), then (s.frameBrand, nil) (gfds_get_brand).
+   No hypothesis. *)
+Theorem C13_source_GetBrand (r : fds_rep) (st : fds_state) :
+  let R := run_func2 EXT f_saltpack_framedDecoderStream_GetBrand [OBJ r st] in
+  fst R = ORet (fst (gfds_get_brand hc fuel flim st)) /\
+  exists r', lookup "s" (snd R) = Some (OBJ r' (snd (gfds_get_brand hc fuel flim st))) /\ keeps_ok Orup Olh Oce r r'.
+Proof. exact (go_GetBrand hc fc encv fuel flim Orup Ord Olh Oce r st). Qed.
+
+(* NOT EXPRESSIBLE: consumeUntilEOF is stuck at `n, err := s.r.Read(buf[:])` (the extern cannot write the data back into
+   the local array buf through the slice expression), for every state, representation and oracle: its body is
+   campaign-only.  No hypothesis. *)
+Theorem C13_source_consumeUntilEOF_not_expressible (r : fds_rep) (st : fds_state) :
+  fst (run_func2 EXT f_saltpack_framedDecoderStream_consumeUntilEOF [OBJ r st]) = OStuck "call".
+Proof. exact (go_consumeUntilEOF_not_expressible hc fc encv fuel flim Orup Ord Olh Oce r st). Qed.
+End Go_side.
+
+(* the extern punctuatedReader.Read of ext_fds IS what the translated method does: run on the reader object and a caller
+   buffer (under the reader's invariant, as C13_source_punctuatedReader_Read), the method returns the first two results
+   of the extern and leaves in "p" / "out" its third and fourth, for some value (fl, raw) of the oracle that keeps the
+   buffer's length — whatever the other parameters of ext_fds. *)
+Theorem C13_source_ext_Read_sound (z1 z2 : bool) (buf : bytes) (st : pr_state) (out : bytes) :
+  (pr_this st = [] -> pr_this_punct st = false) ->
+  let r := run_func2 ext_pr f_saltpack_punctuatedReader_Read [g_pr z1 z2 buf st; VBytes out] in
+  exists (fl : bool * bool) (raw : bytes), List.length raw = List.length out /\
+    forall hc fc encv fuel flim Orup Olh Oce,
+    ext_fds hc fc encv fuel flim Orup (fun _ _ => (fl, raw)) Olh Oce "punctuatedReader.Read" [g_pr z1 z2 buf st; VBytes out]
+    = Some (match fst r with ORet vs => vs | _ => [] end ++
+            [match lookup "p" (snd r) with Some v => v | None => VNil end;
+             match lookup "out" (snd r) with Some v => v | None => VNil end]).
+Proof. exact (ext_Read_sound z1 z2 buf st out). Qed.
+
+(* the same for punctuatedReader.ReadUntilPunctuation: the translated method returns the first two results of the extern
+   and leaves its third in "p", for some value of the oracle.  Hypotheses: those of C13_source_ReadUntilPunctuation
+   (oracle_ok, a 4096-byte buffer, the reader's invariant, pr_clean) and both the evaluator's fuel (299) and the model's
+   fuel exceed the number of turns the loop can take (rup_need). *)
+Theorem C13_source_ext_RUP_sound (O : read_oracle) (z1 z2 : bool) (buf : bytes) (st : pr_state) (lim : Z) (fuel : nat) :
+  oracle_ok O -> List.length buf = 4096%nat ->
+  (pr_this st = [] -> pr_this_punct st = false) -> pr_clean st ->
+  (rup_need (Z.to_nat lim) st [] < 299)%nat -> (rup_need (Z.to_nat lim) st [] < fuel)%nat ->
+  let r := run_func2 (ext_rup O) f_saltpack_punctuatedReader_ReadUntilPunctuation [g_pr z1 z2 buf st; VInt lim] in
+  exists (fl : bool * bool) (buf' : bytes), List.length buf' = 4096%nat /\
+    forall hc fc encv flim Ord Olh Oce,
+    ext_fds hc fc encv fuel flim (fun _ => (fl, buf')) Ord Olh Oce "punctuatedReader.ReadUntilPunctuation" [g_pr z1 z2 buf st; VInt lim]
+    = Some (match fst r with ORet vs => vs | _ => [] end ++
+            [match lookup "p" (snd r) with Some v => v | None => VNil end]).
+Proof. exact (ext_RUP_sound O z1 z2 buf st lim fuel). Qed.
+
+(* MODEL SIDE.  At frameLim = 8192 (lim0) and the shipped checkers hc_opt chk jb / fc_opt chk jb2 (chk = Some typ:
+   parseFrame(., typ, headerMarker) / CheckArmor62(., ., typ); chk = None: no checkers; jb, jb2 = the string such a
+   checker returns TOGETHER WITH an error, arbitrary), the machine of GoAstProofs7a.v and the model's fds_read chk,
+   started in RELATED states (fds_rel chk: equality without checkers; equal but for frameBrand while the phase is
+   Header otherwise), return the same (data, error) and end in related states.  Hypothesis: the states are related. *)
+Theorem C13_source_gfds_read_model (chk : option Z) (jb : bytes -> bytes) (jb2 : bytes -> bytes -> bytes) (fuel n : nat)
+        (a b : fds_state) :
+  fds_rel chk a b ->
+  fst (gfds_read (hc_opt chk jb) (fc_opt chk jb2) fuel lim0 n a) = fst (fds_read chk fuel n b) /\
+  fds_rel chk (snd (gfds_read (hc_opt chk jb) (fc_opt chk jb2) fuel lim0 n a)) (snd (fds_read chk fuel n b)).
+Proof. exact (gfds_read_model chk jb jb2 fuel n a b). Qed.
+
+(* the same for loadHeader: the method (nothing unless the phase is Header) against the model's fds_load_header.
+   (jb2 is a parameter of the lemma it does not use.)  Hypothesis: the states are related. *)
+Theorem C13_source_gfds_load_header_m_model (chk : option Z) (jb : bytes -> bytes) (jb2 : bytes -> bytes -> bytes) (fuel : nat)
+        (a b : fds_state) :
+  fds_rel chk a b ->
+  fst (gfds_load_header_m (hc_opt chk jb) fuel lim0 a) = fst (match fds_ph b with FdsHeader => fds_load_header chk fuel b | _ => (None, b) end) /\
+  fds_rel chk (snd (gfds_load_header_m (hc_opt chk jb) fuel lim0 a)) (snd (match fds_ph b with FdsHeader => fds_load_header chk fuel b | _ => (None, b) end)).
+Proof. exact (gfds_load_header_m_model chk jb jb2 fuel a b). Qed.
+
+(* from the initial state fds_init s the results agree (the initial states are related, and by the two theorems above
+   they stay related call after call).  No hypothesis. *)
+Theorem C13_source_gfds_read_init (chk : option Z) (jb : bytes -> bytes) (jb2 : bytes -> bytes -> bytes) (fuel : nat) (n : nat) (s : source) :
+  fst (gfds_read (hc_opt chk jb) (fc_opt chk jb2) fuel lim0 n (fds_init s)) = fst (fds_read chk fuel n (fds_init s)).
+Proof. exact (gfds_read_init chk jb jb2 fuel n s). Qed.
+
+(* THE TIE: the translated framedDecoderStream.Read against the model's state machine, for the shipped checker pairs
+   (chk = Some typ) and for the stream without checkers (chk = None): on an object related to a model state b, Read
+   returns fds_read chk fuel (len p) b's (len d, e), leaves an object related to the model's next state (in a
+   representation that keeps the buffer length), and d at the front of p.  Hypotheses: fds_rel chk a b; the invariant
+   pr_clean (fds_pr a). *)
+Theorem C13_source_framedDecoderStream_Read_model (chk : option Z) (jb : bytes -> bytes) (jb2 : bytes -> bytes -> bytes)
+        (encv : gval) (fuel : nat) (Orup : gval -> (bool * bool) * bytes) (Ord : read_oracle) (Olh Oce : gval -> fds_rep)
+        (r : fds_rep) (a b : fds_state) (p : bytes) :
+  fds_rel chk a b -> pr_clean (fds_pr a) ->
+  let hc := hc_opt chk jb in
+  let fc := fc_opt chk jb2 in
+  let R := run_func2 (ext_fds hc fc encv fuel lim0 Orup Ord Olh Oce) f_saltpack_framedDecoderStream_Read [g_fds hc fc encv lim0 r a; VBytes p] in
+  let m := fds_read chk fuel (List.length p) b in
+  fst R = ORet [VInt (Z.of_nat (List.length (fst (fst m)))); g_err_opt (snd (fst m))] /\
+  (exists r' a', lookup "s" (snd R) = Some (g_fds hc fc encv lim0 r' a') /\ fds_rel chk a' (snd m) /\
+                 keeps_ok Orup Olh Oce r r') /\
+  (exists p', lookup "p" (snd R) = Some (VBytes p') /\ firstn (List.length (fst (fst m))) p' = fst (fst m)).
+Proof. exact (go_framedDecoderStream_Read_model chk jb jb2 encv fuel Orup Ord Olh Oce r a b p). Qed.
+
+(* its three instances for the shipped checker pairs: armor62EncryptionHeaderChecker / FrameChecker (armor62_signcrypt.go
+   reuses this pair), armor62SignatureHeaderChecker / FrameChecker, armor62DetachedSignatureHeaderChecker / FrameChecker *)
+Theorem C13_source_Read_armor62_encryption (jb : bytes -> bytes) (jb2 : bytes -> bytes -> bytes)
+        (encv : gval) (fuel : nat) (Orup : gval -> (bool * bool) * bytes) (Ord : read_oracle) (Olh Oce : gval -> fds_rep)
+        (r : fds_rep) (a b : fds_state) (p : bytes) :
+  fds_rel (Some mt_encryption) a b -> pr_clean (fds_pr a) ->
+  let hc := hc_opt (Some mt_encryption) jb in
+  let fc := fc_opt (Some mt_encryption) jb2 in
+  let R := run_func2 (ext_fds hc fc encv fuel lim0 Orup Ord Olh Oce) f_saltpack_framedDecoderStream_Read [g_fds hc fc encv lim0 r a; VBytes p] in
+  let m := fds_read (Some mt_encryption) fuel (List.length p) b in
+  fst R = ORet [VInt (Z.of_nat (List.length (fst (fst m)))); g_err_opt (snd (fst m))] /\
+  (exists r' a', lookup "s" (snd R) = Some (g_fds hc fc encv lim0 r' a') /\ fds_rel (Some mt_encryption) a' (snd m) /\
+                 keeps_ok Orup Olh Oce r r') /\
+  (exists p', lookup "p" (snd R) = Some (VBytes p') /\ firstn (List.length (fst (fst m))) p' = fst (fst m)).
+Proof. exact (go_Read_armor62_encryption jb jb2 encv fuel Orup Ord Olh Oce r a b p). Qed.
+
+Theorem C13_source_Read_armor62_attached (jb : bytes -> bytes) (jb2 : bytes -> bytes -> bytes)
+        (encv : gval) (fuel : nat) (Orup : gval -> (bool * bool) * bytes) (Ord : read_oracle) (Olh Oce : gval -> fds_rep)
+        (r : fds_rep) (a b : fds_state) (p : bytes) :
+  fds_rel (Some mt_attached) a b -> pr_clean (fds_pr a) ->
+  let hc := hc_opt (Some mt_attached) jb in
+  let fc := fc_opt (Some mt_attached) jb2 in
+  let R := run_func2 (ext_fds hc fc encv fuel lim0 Orup Ord Olh Oce) f_saltpack_framedDecoderStream_Read [g_fds hc fc encv lim0 r a; VBytes p] in
+  let m := fds_read (Some mt_attached) fuel (List.length p) b in
+  fst R = ORet [VInt (Z.of_nat (List.length (fst (fst m)))); g_err_opt (snd (fst m))] /\
+  (exists r' a', lookup "s" (snd R) = Some (g_fds hc fc encv lim0 r' a') /\ fds_rel (Some mt_attached) a' (snd m) /\
+                 keeps_ok Orup Olh Oce r r') /\
+  (exists p', lookup "p" (snd R) = Some (VBytes p') /\ firstn (List.length (fst (fst m))) p' = fst (fst m)).
+Proof. exact (go_Read_armor62_attached jb jb2 encv fuel Orup Ord Olh Oce r a b p). Qed.
+
+Theorem C13_source_Read_armor62_detached (jb : bytes -> bytes) (jb2 : bytes -> bytes -> bytes)
+        (encv : gval) (fuel : nat) (Orup : gval -> (bool * bool) * bytes) (Ord : read_oracle) (Olh Oce : gval -> fds_rep)
+        (r : fds_rep) (a b : fds_state) (p : bytes) :
+  fds_rel (Some mt_detached) a b -> pr_clean (fds_pr a) ->
+  let hc := hc_opt (Some mt_detached) jb in
+  let fc := fc_opt (Some mt_detached) jb2 in
+  let R := run_func2 (ext_fds hc fc encv fuel lim0 Orup Ord Olh Oce) f_saltpack_framedDecoderStream_Read [g_fds hc fc encv lim0 r a; VBytes p] in
+  let m := fds_read (Some mt_detached) fuel (List.length p) b in
+  fst R = ORet [VInt (Z.of_nat (List.length (fst (fst m)))); g_err_opt (snd (fst m))] /\
+  (exists r' a', lookup "s" (snd R) = Some (g_fds hc fc encv lim0 r' a') /\ fds_rel (Some mt_detached) a' (snd m) /\
+                 keeps_ok Orup Olh Oce r r') /\
+  (exists p', lookup "p" (snd R) = Some (VBytes p') /\ firstn (List.length (fst (fst m))) p' = fst (fst m)).
+Proof. exact (go_Read_armor62_detached jb jb2 encv fuel Orup Ord Olh Oce r a b p). Qed.
+End C13_source_framed_decoder.
+
+Print Assumptions C13_source_isValidByteSequence.
+Print Assumptions C13_source_isValidByteSequence_nil.
+Print Assumptions C13_source_isValidByteSequence_bytes_stuck.
+Print Assumptions C13_source_toASCII.
+Print Assumptions C13_source_loadHeader.
+Print Assumptions C13_source_framedDecoderStream_Read.
+Print Assumptions C13_source_gfds_read_clean.
+Print Assumptions C13_source_GetFooter.
+Print Assumptions C13_source_GetHeader.
+Print Assumptions C13_source_GetBrand.
+Print Assumptions C13_source_consumeUntilEOF_not_expressible.
+Print Assumptions C13_source_ext_Read_sound.
+Print Assumptions C13_source_ext_RUP_sound.
+Print Assumptions C13_source_gfds_read_model.
+Print Assumptions C13_source_gfds_load_header_m_model.
+Print Assumptions C13_source_gfds_read_init.
+Print Assumptions C13_source_framedDecoderStream_Read_model.
+Print Assumptions C13_source_Read_armor62_encryption.
+Print Assumptions C13_source_Read_armor62_attached.
+Print Assumptions C13_source_Read_armor62_detached.
+Print Assumptions C13_source_filteringReader_Read_range_stuck.
+Print Assumptions C13_source_fr_body_step.
+Print Assumptions C13_source_fr_after_exec.
+Print Assumptions C13_source_gfr_range_filter.
+Print Assumptions C13_source_decoder_Read_nofill.
+Print Assumptions C13_source_rd_body_split.
+Print Assumptions C13_source_rd_post2_split.
+Print Assumptions C13_source_rd_pre_exec.
+Print Assumptions C13_source_rd_loop.
+Print Assumptions C13_source_rd_post_exec.
+Print Assumptions C13_source_decoder_Read_exits.
+Print Assumptions C13_source_rd_mid_exec.
+Print Assumptions C13_source_rd_shift_stuck.
+Print Assumptions C13_source_rd_fin_exec.
+Print Assumptions C13_source_decoder_Read_exits_model.
+Print Assumptions C13_source_gd_decode_model.
+Print Assumptions C13_source_decoder_Read_read_places.
+Print Assumptions C13_source_decoder_Read_copy_places.
+Print Assumptions C13_source_copy_sites_conflict.
 Print Assumptions C13_source_ReadUntilPunctuation.
 Print Assumptions C13_source_chunkReader_Read.
 Print Assumptions C13_source_punctuatedReader_Read.
